@@ -292,6 +292,11 @@ where
     if is_4digits::<FORMAT>(bytes) {
         // SAFETY: safe since we have at least 4 bytes in the buffer.
         unsafe { iter.step_by_unchecked(4) };
+        // Keep the digit count in sync: the iterator can be contiguous while
+        // the buffer is not (separators enabled for another component only).
+        for _ in 0..4 {
+            iter.increment_count();
+        }
         Some(T::as_cast(parse_4digits::<FORMAT>(bytes)))
     } else {
         None
@@ -366,6 +371,11 @@ where
     if is_8digits::<FORMAT>(bytes) {
         // SAFETY: safe since we have at least 8 bytes in the buffer.
         unsafe { iter.step_by_unchecked(8) };
+        // Keep the digit count in sync: the iterator can be contiguous while
+        // the buffer is not (separators enabled for another component only).
+        for _ in 0..8 {
+            iter.increment_count();
+        }
         Some(T::as_cast(parse_8digits::<FORMAT>(bytes)))
     } else {
         None
